@@ -495,9 +495,9 @@ def run_axis(ctx, ix, rule, modules=None, exceptions=None):
             # tuple(range(n)) is the identity permutation
             ctx.ok(rule, key)
             return
-        exc = exceptions.get((f.qual, ast.unparse(node.slice) if isinstance(node, ast.Subscript) else ast.unparse(node)))
-        if exc is not None:
-            why = exc(f, node)
+        exc = exceptions.get(f.qual)
+        why = exc(f, node) if exc is not None else NotImplemented
+        if why is not NotImplemented:
             if why is None:
                 ctx.ok(rule, key + " [frozen exception, side condition holds]")
                 return
